@@ -334,7 +334,7 @@ def build_instance(spec):
         if kvd and H == 1:
             H = 2
         return M.mha(rng, sz["B"], sz["S"], H, sz["Dh"], P=(int(rng.choice([1, 5])) if past else 0),
-                     kv_heads=(H // 2 if kvd else None), Skv=(sz["S"] + 2 if skd else None), **sw)
+                     kv_heads=(1 if kvd else None), Skv=(sz["S"] + 2 if skd else None), **sw)
     if maker == "mha_scale":
         past = sw.pop("past", False)
         return M.mha_scale(rng, sz["B"], sz["S"], sz["H"], sz["Dh"], scale=float(rng.choice([0.5, 0.125, 2.0])), P=(4 if past else 0), **sw)
